@@ -615,6 +615,80 @@ def sec_linearization_methods(chk):
                                detail=f"{label}: {type(e).__name__}: {e}")
 
 
+def sec_ptw_field_arguments(chk):
+    """point-wise functions with extra arguments given as Fields / MultiFields (one argument entry per pixel and per key)"""
+    import nifty.cl as ift
+    from nifty.cl.field import Field
+    from nifty.cl.multi_field import MultiField
+    from vf.ofield import all_equal
+    chk.under_contract(MultiField.ptw)
+    chk.under_contract(MultiField.ptw_with_deriv)
+    chk.under_contract(MultiField._prep_args)
+    chk.under_contract(Field.ptw_with_deriv)
+    domsets = [("keys of different shapes", {"a": ift.DomainTuple.make(ift.UnstructuredDomain(2)), "b": ift.DomainTuple.make(ift.RGSpace(3, distances=0.5)),
+                                              "c": ift.DomainTuple.make(ift.UnstructuredDomain(1))}, None),
+               ("keys of equal shape", {"a": ift.DomainTuple.make(ift.UnstructuredDomain(2)), "b": ift.DomainTuple.make(ift.RGSpace(2, distances=0.5))}, None)]
+    for dname, doms, _ in domsets:
+        with objx.patched():
+            _ptw_field_arguments(chk, ift, dname, doms)
+
+
+def _ptw_field_arguments(chk, ift, dname, doms):
+    from vf.ofield import all_equal
+    if True:
+        mdom = ift.MultiDomain.make(doms)
+        sym, fields = {}, {}
+        for k, d in doms.items():
+            n = d.size
+            sym[k] = [sp.Symbol(f"x{k}{i}", positive=True) for i in range(n)]
+            arr = np.empty(n, dtype=object)
+            for i in range(n):
+                arr[i] = SX(sym[k][i])
+            fields[k] = ift.Field(d, arr.reshape(d.shape))
+        x = ift.MultiField.from_dict(fields, mdom)
+        # numeric arguments that differ from key to key and from pixel to pixel
+        cut = lambda tab: {k: tab[k][:doms[k].size] for k in doms}      # noqa: E731
+        expo = cut({"a": [2., 3.], "b": [0.5, 2., -1.], "c": [4.]})
+        base = cut({"a": [2., 3.], "b": [1.5, 0.5, 4.], "c": [10.]})
+        lo = cut({"a": [0.5, 0.2], "b": [0.1, 0.3, 0.2], "c": [0.4]})
+        hi = cut({"a": [5., 7.], "b": [6., 8., 9.], "c": [3.]})
+        mk = lambda vals: ift.MultiField.from_dict({k: ift.makeField(doms[k], np.array(vals[k]).reshape(doms[k].shape)) for k in doms}, mdom)      # noqa: E731
+        R = lambda v: sp.nsimplify(v, rational=True)      # noqa: E731
+        cases = [
+            ("power(exponent field)", "power", (mk(expo),), {}, lambda k, i, v: v ** R(expo[k][i]), lambda k, i, v: R(expo[k][i]) * v ** (R(expo[k][i]) - 1)),
+            ("exponentiate(base field)", "exponentiate", (mk(base),), {}, lambda k, i, v: R(base[k][i]) ** v, lambda k, i, v: sp.log(R(base[k][i])) * R(base[k][i]) ** v),
+            ("clip(a_min field, a_max field) inside the interval", "clip", (mk(lo), mk(hi)), {}, lambda k, i, v: v, lambda k, i, v: sp.Integer(1)),
+            ("power(3.0) scalar argument", "power", (3.,), {}, lambda k, i, v: v ** 3, lambda k, i, v: 3 * v ** 2),
+        ]
+        for label, name, args, kwargs, f, df in cases:
+            # concolic point inside every clip interval
+            shadow = {s: sp.Rational(1) + sp.Rational(j + 1, 7) for j, s in enumerate([q for k in doms for q in sym[k]])}
+            lab = f"ptw_field_arguments: MultiField({', '.join(sorted(doms))}; {dname}).{label}"
+            try:
+                with SX.concolic(shadow):
+                    x.ptw_with_deriv(name, *args, **kwargs)
+                    ift.Linearization.make_var(x).ptw(name, *args, **kwargs)
+            except Exception as e:  # noqa: BLE001
+                chk.obligation(f"{lab}: the documented call is accepted (arguments given as MultiFields on the same domain)", "refuted", backend="native", detail=f"{type(e).__name__}: {e}"[:300])
+                continue
+            with SX.concolic(shadow):
+                plain = x.ptw(name, *args, **kwargs)
+                val, der = x.ptw_with_deriv(name, *args, **kwargs)
+                lin = ift.Linearization.make_var(x).ptw(name, *args, **kwargs)
+                t = ift.MultiField.from_dict({k: ift.Field(doms[k], np.array([SX(sp.Symbol(f"t{k}{i}", real=True)) for i in range(doms[k].size)], dtype=object).reshape(doms[k].shape))
+                                              for k in doms}, mdom)
+                jt = lin.jac(t)
+            want_v = [f(k, i, sym[k][i]) for k in sorted(doms) for i in range(doms[k].size)]
+            want_d = [df(k, i, sym[k][i]) for k in sorted(doms) for i in range(doms[k].size)]
+            flat_mf = lambda m: [e for k in sorted(doms) for e in exprs(m[k].asnumpy())]      # noqa: E731
+            all_equal(chk, f"{lab}: ptw == the function with each key's and pixel's own argument", flat_mf(plain), want_v)
+            all_equal(chk, f"{lab}: ptw_with_deriv value == ptw", flat_mf(val), want_v)
+            all_equal(chk, f"{lab}: ptw_with_deriv derivative == d/dx of that function", flat_mf(der), want_d)
+            all_equal(chk, f"{lab}: Linearization.ptw value == plain evaluation", flat_mf(lin.val), want_v)
+            tsym = [sp.Symbol(f"t{k}{i}", real=True) for k in sorted(doms) for i in range(doms[k].size)]
+            all_equal(chk, f"{lab}: Linearization.ptw Jacobian == diag(derivative)", flat_mf(jt), [d * tt for d, tt in zip(want_d, tsym)])
+
+
 def sec_trees_volume(chk):
     """integration over a regular grid: the volume factor enters value and Jacobian"""
     import nifty.cl as ift
@@ -655,4 +729,4 @@ def _native(ob):
 
 REPLAY = {"x.outer(": _native}
 
-SECTIONS = [sec_trees_volume, sec_table, sec_table_points, sec_trees_single, sec_trees_complex, sec_trees_multi, sec_linearization_methods]
+SECTIONS = [sec_trees_volume, sec_table, sec_table_points, sec_trees_single, sec_trees_complex, sec_trees_multi, sec_linearization_methods, sec_ptw_field_arguments]
